@@ -40,6 +40,64 @@ def known_matcher(pid):
     return m
 
 
+WALK = {'C01': ['C01_WalkFits'], 'C02': ['C02_WalkNoFail', 'C02_WalkPartition', 'C02_WalkStatic', 'C02_WalkNav']}
+
+
+def walk_matcher(pid):
+    ks = {k['matcher']: k for k in core.known_for(pid)}
+
+    def m(inv, ev, drifted):
+        if drifted:
+            return None
+        if inv in ('C02_WalkPartition', 'C02_WalkNav') and '' in ev['rows']:
+            return ks.get('render-empty-row-dropped')
+        if inv in ('C02_WalkNoFail', 'C02_WalkPartition', 'C02_WalkNav') and ev['ended'] == 'error' and len(ev['pages']) > 1:
+            return ks.get('render-next-into-oversize-page')
+        return None
+    return m
+
+
+def walks(out, pid, w, d, nsess):
+    """engine level: clients walking paged nodes with the next selector (long-lived and per-request engines, second visits)."""
+    tr = os.path.join(d, 'walks.ndjson')
+    core.run_harness(['walk-run', tr, str(nsess)], timeout=3000)
+    open(os.path.join(w, 'rw.cfg'), 'w').write(trace_cfg(WALK[pid] + ['Drift_Walk']))
+    viol, st = core.validate_trace('RenderTrace', 'rw.cfg', tr, workdir=w, chunk=3000, par=core.NCPU)
+    out.cov['evaluations'] += st['events']
+    drifted = {idx for inv, idx, ev in viol if inv == 'Drift_Walk'}
+    m = walk_matcher(pid)
+    kinds = set()
+    for line in open(tr):
+        ev = json.loads(line)
+        kinds.add(('walk', ev['mode'], ev['visit'], ev['node'], min(len(ev['pages']), 5), ev['ended']))
+    for inv, idx, ev in viol:
+        desc = dict(mode=ev['mode'], node=ev['node'], visit=ev['visit'], cfg=ev['cfg'], ended=ev['ended'],
+                    pages=[(p['kind'], p['len'], p['rows'], p['next'], p['prev'], p['why'][:40]) for p in ev['pages']])
+        if inv == 'Drift_Walk':
+            # a walk whose pages differ from the algorithm transcription: not a verdict by itself, but nothing is excused for it
+            out.cov['model_drift_events'] = out.cov.get('model_drift_events', 0) + 1
+            out.drift(desc)
+            continue
+        k = m(inv, ev, idx in drifted)
+        if k:
+            out.known(k['id'], k['what'])
+            continue
+        out.violation('%s violated by a client walking a paged node through the real engine: %s' % (inv, json.dumps(desc)[:900]),
+                      dict(property=pid, kind='walk', invariant=inv, seed=os.environ.get('VERIF_SEED', '1'), nsess=nsess, sid=ev['sid'], node=ev['node'], visit=ev['visit']))
+    return kinds
+
+
+def replay_walk(pid, case):
+    d = core.scratch('verif-rw-')
+    tr = os.path.join(d, 'walks.ndjson')
+    core.run_harness(['walk-run', tr, str(case['nsess'])], env={'VERIF_SEED': str(case['seed'])})
+    rows = [r for r in core.read_ndjson(tr) if r['sid'] == case['sid'] and r['node'] == case['node'] and r['visit'] == case['visit']]
+    core.write_ndjson(tr, rows)
+    w = core.spec_copy({'rw.cfg': trace_cfg(WALK[pid])})
+    viol, _ = core.validate_trace('RenderTrace', 'rw.cfg', tr, workdir=w)
+    return viol
+
+
 def run(pid, tier, mc_invs, mine):
     out = Outcome(pid, tier)
     thorough = tier == 'thorough'
@@ -81,6 +139,8 @@ def run(pid, tier, mc_invs, mine):
     tr2 = os.path.join(d, 'random.ndjson')
     core.run_harness(['render-random', tr2, '6000' if thorough else '600'], timeout=3000)
     npages += judge(out, pid, w, tr2, 'random configuration', matcher, kinds, mine)
+    out.stage('D engine-level walks')
+    kinds |= walks(out, pid, w, d, 6000 if thorough else 800)
     out.cov['traces_validated_against_impl'] = out.cov['evaluations']
     out.cov['evaluations'] = npages
     out.cov['distinct_nontrivial'] = len(kinds)
@@ -119,6 +179,14 @@ def judge(out, pid, w, tr, source, matcher, kinds, mine):
 
 def replay(pid, path, mine):
     case = json.load(open(path))
+    if case.get('kind') == 'walk':
+        viol = replay_walk(pid, case)
+        if viol:
+            log('VIOLATION property=%s replay=%s' % (pid, path))
+            log('  %s' % viol[0][0])
+            return 1
+        log('replay: property holds on this walk')
+        return 0
     d = core.scratch('verif-rr-')
     cp = os.path.join(d, 'case.ndjson')
     open(cp, 'w').write(json.dumps(dict(cfg=case['cfg'], maxidx=case['maxidx'])) + '\n')
